@@ -201,11 +201,16 @@ func TestVerif_C29(t *testing.T) {
 	rec.Rule = "3-6 client goroutines x 6-14 ops over 2 shared directories; every client mutates only the 4 paths it owns (create/write/setattr size/rename/remove/mkdir/rmdir/symlink) and everybody reads every path (LOOKUP/GETATTR/READ/READLINK/READDIR/READDIRPLUS) through shared handles; seeded yields and microsecond delays at backend-call boundaries; modes strict(TTL 1ns) / cached(5s) / cached+dir+negative; transports HandleCall and the real loop with the worker pool; per-owner histories checked by porcupine (strict) or by the state-window rule (cached); distinct = interleaving signatures (order of call/return events by kind)"
 	rec.Assumptions = []string{"the backend (refs) is thread-safe: one mutex around every call", "a handle names a path (the server re-opens by path on every request)"}
 	defer rec.Write()
+	vfC29Fills(rec)
 	eps := evid.Pick(90, 12000)
-	for ep := 0; ep < eps && rec.Violations() < 20; ep++ {
+	for ep := 0; ep < eps && rec.Violations() < 20 && !vfC29Hung; ep++ {
 		vfC29Episode(rec, ep)
 	}
 }
+
+// vfC29Hung is set when client goroutines never came back (deadlock): later episodes
+// would only hang as well.
+var vfC29Hung bool
 
 func vfC29Episode(rec *evid.Rec, ep int) {
 	rng := evid.Rng(29, int64(ep))
@@ -309,6 +314,17 @@ func vfC29Episode(rec *evid.Rec, ep int) {
 			for i := 0; i < nops; i++ {
 				var in vfC29In
 				mine := owned(k)
+				if r.Intn(100) < 7 { // change the mode of a shared directory through its shared handle
+					d := dirs[r.Intn(len(dirs))]
+					m := []uint32{0777, 0755, 0775}[r.Intn(3)]
+					if res := do(2, xdrw.ArgSetattr(dirH[d], xdrw.Sattr3{Mode: &m}, false, 0, 0)); res == nil {
+						mu.Lock()
+						mismatch = append(mismatch, fmt.Sprintf("client %d: SETATTR mode on shared directory %s got no decodable reply", k, d))
+						mu.Unlock()
+						return
+					}
+					continue
+				}
 				if r.Intn(100) < 55 { // mutate one of my paths
 					p := mine[r.Intn(4)]
 					in = vfC29In{Path: p, Owner: k}
@@ -471,8 +487,18 @@ func vfC29Episode(rec *evid.Rec, ep int) {
 	go func() { wg.Wait(); close(done) }()
 	select {
 	case <-done:
-	case <-time.After(120 * time.Second):
-		rec.Violate("C29/requests-did-not-complete", "client goroutines still blocked after 120 s (deadlock or lost reply)", map[string]any{"episode": ep, "mode": mode})
+	case <-time.After(60 * time.Second):
+		vfC29Hung = true
+		buf := make([]byte, 1<<20)
+		buf = buf[:runtime.Stack(buf, true)]
+		var blocked []string
+		for _, g := range strings.Split(string(buf), "\n\n") {
+			if strings.Contains(g, "absnfs.(*NFSProcedureHandler).handle") && (strings.Contains(g, "sync.(*RWMutex)") || strings.Contains(g, "sync.(*Mutex)")) {
+				lines := strings.Split(g, "\n")
+				blocked = append(blocked, strings.Join(lines[:min64i(len(lines), 12)], "\n"))
+			}
+		}
+		rec.Violate("C29/requests-did-not-complete", fmt.Sprintf("client goroutines still blocked after 60 s (deadlock or lost reply); %d handler goroutines are waiting for a lock", len(blocked)), map[string]any{"episode": ep, "mode": mode, "blocked_handlers": blocked[:min64i(len(blocked), 4)]})
 		return
 	}
 	fs.SetHook(nil)
@@ -789,4 +815,170 @@ func vfC29Audit(rec *evid.Rec, srv *vfSrv, mode string, desc map[string]any) {
 		}
 		n.dirCache.mu.RUnlock()
 	}
+}
+
+// vfC29Fills: controlled cache-fill races. A reader is parked right AFTER the backend
+// call whose result it is going to cache, a mutation of the same object runs to
+// completion (including its invalidations), the reader is released and stores what it
+// saw; a fresh read must then show the state after the mutation, not the reader's
+// stale view. Every (reader, mutator) pair runs with all caches enabled.
+func vfC29Fills(rec *evid.Rec) {
+	type scen struct {
+		reader  string // READDIR | LOOKUP-existing | LOOKUP-absent
+		mutator string
+	}
+	var scens []scen
+	for _, m := range []string{"CREATE", "MKDIR", "SYMLINK", "REMOVE", "RMDIR", "RENAME-within", "RENAME-in", "RENAME-out"} {
+		scens = append(scens, scen{"READDIR", m})
+	}
+	for _, m := range []string{"REMOVE", "WRITE", "SETATTR-size", "RENAME-away", "RENAME-over"} {
+		scens = append(scens, scen{"LOOKUP-existing", m})
+	}
+	for _, m := range []string{"CREATE", "MKDIR", "SYMLINK", "RENAME-onto"} {
+		scens = append(scens, scen{"LOOKUP-absent", m})
+	}
+	for _, sc := range scens {
+		fs := refs.New()
+		fs.PlantDir("/d", 0777, 0, 0)
+		fs.PlantDir("/e", 0777, 0, 0)
+		fs.PlantFile("/d/old", []byte("old-data"), 0666, 0, 0)
+		fs.PlantDir("/d/olddir", 0777, 0, 0)
+		fs.PlantFile("/e/other", []byte("other"), 0666, 0, 0)
+		srv, err := vfNewSrv(fs, ExportOptions{AttrCacheTimeout: time.Hour, EnableDirCache: true, DirCacheTimeout: time.Hour, CacheNegativeLookups: true, NegativeCacheTimeout: time.Hour})
+		if err != nil {
+			rec.Infra(err.Error())
+			return
+		}
+		c := srv.client()
+		root, _ := c.mnt("/")
+		look := func(h uint64, n string) uint64 {
+			l, _ := c.lookup(h, n)
+			if l == nil || l.Status != 0 {
+				return 0
+			}
+			return vfFH(l.FH)
+		}
+		dh, eh := look(root, "d"), look(root, "e")
+		oldh := uint64(0)
+		if sc.mutator == "WRITE" || sc.mutator == "SETATTR-size" {
+			oldh = look(dh, "old")
+			srv.nfs.attrCache.Invalidate("/d/old") // the reader below must fill the cache itself
+		}
+		// the reader and where it is parked
+		parkName, parkPath, target := "File.Readdir", "/d", ""
+		switch sc.reader {
+		case "LOOKUP-existing":
+			parkName, parkPath, target = "Lstat", "/d/old", "old"
+		case "LOOKUP-absent":
+			parkName, parkPath, target = "Lstat", "/d/new", "new"
+		}
+		parked, open := make(chan struct{}), make(chan struct{})
+		var once sync.Once
+		fs.SetHook(func(op *refs.Op, ph refs.Phase) error {
+			if ph == refs.After && op.Name == parkName && op.Path == parkPath {
+				first := false
+				once.Do(func() { first = true })
+				if first {
+					close(parked)
+					<-open
+				}
+			}
+			return nil
+		})
+		readerDone := make(chan struct{})
+		go func() {
+			defer close(readerDone)
+			cl := srv.client()
+			if sc.reader == "READDIR" {
+				cl.readdir(dh, 0, 65536)
+			} else {
+				cl.lookup(dh, target)
+			}
+		}()
+		desc := fmt.Sprintf("reader=%s parked after %s(%s), mutator=%s", sc.reader, parkName, parkPath, sc.mutator)
+		evid.Journal(desc)
+		select {
+		case <-parked:
+		case <-time.After(20 * time.Second):
+			rec.Inconclusive(1)
+			close(open)
+			srv.Close()
+			continue
+		}
+		// the mutation, start to finish, while the reader holds its stale view
+		var mres *rfc.Res
+		switch sc.mutator {
+		case "CREATE":
+			mres, _ = c.create(dh, "new", 1, sattrNone, [8]byte{})
+		case "MKDIR":
+			mres, _ = c.mkdir(dh, "new", sattrNone)
+		case "SYMLINK":
+			mres, _ = c.symlink(dh, "new", "zz", sattrNone)
+		case "REMOVE":
+			mres, _ = c.remove(dh, "old")
+		case "RMDIR":
+			mres, _ = c.rmdir(dh, "olddir")
+		case "RENAME-within":
+			mres, _ = c.rename(dh, "old", dh, "renamed")
+		case "RENAME-in", "RENAME-onto":
+			mres, _ = c.rename(eh, "other", dh, "new")
+		case "RENAME-out", "RENAME-away":
+			mres, _ = c.rename(dh, "old", eh, "moved")
+		case "RENAME-over":
+			mres, _ = c.rename(eh, "other", dh, "old")
+		case "WRITE":
+			mres, _ = c.write(oldh, 0, 2, []byte("new-data-that-is-longer"))
+		case "SETATTR-size":
+			mres, _ = c.setattr(oldh, xdrw.Sattr3{Size: xdrw.U64p(3)})
+		}
+		close(open)
+		select {
+		case <-readerDone:
+		case <-time.After(30 * time.Second):
+			rec.Violate("C29/fill-race/reader-never-returned", desc, nil)
+			srv.Close()
+			continue
+		}
+		fs.SetHook(nil)
+		rec.Eval(1)
+		if mres == nil || mres.Status != 0 {
+			rec.Inconclusive(1)
+			srv.Close()
+			continue
+		}
+		// fresh reads after both have completed must show the backend's state
+		outcome := "fresh"
+		if sc.reader == "READDIR" {
+			r, _ := c.readdir(dh, 0, 65536)
+			var got []string
+			if r != nil {
+				for _, e := range r.Entries {
+					got = append(got, e.Name)
+				}
+			}
+			sort.Strings(got)
+			want, _ := fs.Names("/d")
+			if strings.Join(got, ",") != strings.Join(want, ",") {
+				outcome = "stale"
+				rec.Violate("C29/fill-race/stale-listing-cached-after-"+sc.mutator, fmt.Sprintf("%s: READDIR afterwards lists [%s], the directory holds [%s]", desc, strings.Join(got, ","), strings.Join(want, ",")), nil)
+			}
+		} else {
+			r, _ := c.lookup(dh, target)
+			be, exists := fs.Peek("/d/" + target)
+			switch {
+			case r == nil:
+				rec.Inconclusive(1)
+			case exists != (r.Status == 0):
+				outcome = "stale"
+				rec.Violate("C29/fill-race/stale-lookup-result-cached-after-"+sc.mutator, fmt.Sprintf("%s: LOOKUP afterwards answers status %d, the object exists: %v", desc, r.Status, exists), nil)
+			case exists && be.Kind == refs.KFile && r.Obj.Present && r.Obj.A.Size != uint64(be.Size):
+				outcome = "stale"
+				rec.Violate("C29/fill-race/stale-attributes-cached-after-"+sc.mutator, fmt.Sprintf("%s: LOOKUP afterwards reports size %d, the file has %d bytes", desc, r.Obj.A.Size, be.Size), nil)
+			}
+		}
+		rec.Distinct(fmt.Sprintf("fill-race|%s|%s|%s", sc.reader, sc.mutator, outcome))
+		vfC29Audit(rec, srv, "fill-race", map[string]any{"scenario": desc})
+		srv.Close()
+	}
+	rec.Add("controlled_fill_races", len(scens))
 }
